@@ -17,7 +17,10 @@ import (
 	"github.com/DrmagicE/gmqtt"
 	"github.com/DrmagicE/gmqtt/persistence/subscription"
 	"github.com/DrmagicE/gmqtt/persistence/subscription/mem"
+	redis_sub "github.com/DrmagicE/gmqtt/persistence/subscription/redis"
+	redigo "github.com/gomodule/redigo/redis"
 
+	"verifharness/resp"
 	"verifharness/tc"
 )
 
@@ -180,7 +183,41 @@ var kinds = []kind{
 	{"sys", subscription.TypeSYS, func(sh string, sys bool) bool { return sh == "" && sys }},
 }
 
-func newStore() subscription.Store { return mem.NewStore() }
+var target = "mem"
+
+// env is what one transition runs on: the memory store, or (target redis) the redis-backed store over a fresh
+// in-process RESP server, which also allows a "restart": a new store object that loads the stored subscriptions.
+type env struct {
+	st   subscription.Store
+	srv  *resp.Server
+	pool *redigo.Pool
+}
+
+func newEnv() (*env, error) {
+	if target == "mem" {
+		return &env{st: mem.NewStore()}, nil
+	}
+	srv, err := resp.NewServer()
+	if err != nil {
+		return nil, err
+	}
+	addr := srv.Addr()
+	pool := &redigo.Pool{MaxIdle: 2, Dial: func() (redigo.Conn, error) { return redigo.Dial("tcp", addr) }}
+	return &env{st: redis_sub.New(pool), srv: srv, pool: pool}, nil
+}
+
+func (e *env) close() {
+	if e.srv != nil {
+		_ = e.pool.Close()
+		_ = e.srv.Close()
+	}
+}
+
+// restarted returns a new store object over the same stored data (what server.Init does after a restart).
+func (e *env) restarted() (subscription.Store, error) {
+	st := redis_sub.New(e.pool)
+	return st, st.Init(meta.Clients)
+}
 
 var nontriv int64
 
@@ -191,7 +228,13 @@ func one(js []byte) {
 		return
 	}
 	atomic.AddInt64(&rep.N, 1)
-	st := newStore()
+	e, err := newEnv()
+	if err != nil {
+		fmt.Fprintln(os.Stderr, "environment:", err)
+		os.Exit(2)
+	}
+	defer e.close()
+	st := e.st
 	for _, op := range t.Pre {
 		if _, err := apply(st, op); err != nil {
 			rep.Div("pre-op-error", fmt.Sprintf("%s during prefix: %v", op.Op, err), js, nil)
@@ -209,11 +252,24 @@ func one(js []byte) {
 	if len(t.Subs) > 0 || len(t.Pre) > 0 {
 		atomic.AddInt64(&rep.NonTriv, 1)
 	}
-	verify(st, &t, js)
+	verify(st, &t, js, true)
+	if target == "redis" {
+		// the stored form must yield the same answers after a restart (the Total counters are not stored)
+		st2, err := e.restarted()
+		if err != nil {
+			rep.Div("restart-error", fmt.Sprintf("Init on the stored subscriptions: %v", err), js, nil)
+		} else {
+			verify(st2, &t, js, false)
+		}
+	}
 	rep.Sample(js, 3)
 }
 
-func verify(st subscription.Store, t *Trans, js []byte) {
+func verify(st subscription.Store, t *Trans, js []byte, totals bool) {
+	pfx := ""
+	if !totals {
+		pfx = "restart:"
+	}
 	type es struct {
 		k     string
 		c, n  string
@@ -232,12 +288,12 @@ func verify(st subscription.Store, t *Trans, js []byte) {
 		}
 		if err != nil {
 			what := fmt.Sprintf("%s type=%s name=%q client=%q", mode, kn, name, c)
-			rep.Div("query-panic:"+mode, fmt.Sprintf("%s: %v", what, err), js, nil)
+			rep.Div(pfx+"query-panic:"+mode, fmt.Sprintf("%s%s: %v", pfx, what, err), js, nil)
 			return
 		}
 		if !same(got, want) {
 			what := fmt.Sprintf("%s type=%s name=%q client=%q", mode, kn, name, c)
-			rep.Div("query:"+mode, fmt.Sprintf("%s returned %v, specification says %v", what, got, want), js, nil)
+			rep.Div(pfx+"query:"+mode, fmt.Sprintf("%s%s returned %v, specification says %v", pfx, what, got, want), js, nil)
 		}
 	}
 	clients := append([]string{""}, meta.Clients...)
@@ -281,8 +337,8 @@ func verify(st subscription.Store, t *Trans, js []byte) {
 	}
 	// (5) counters
 	gs := st.GetStats()
-	if int(gs.SubscriptionsCurrent) != len(t.Subs) || int(gs.SubscriptionsTotal) != t.Total {
-		rep.Div("stats:global", fmt.Sprintf("GetStats = {total %d, current %d}, specification says {total %d, current %d}",
+	if int(gs.SubscriptionsCurrent) != len(t.Subs) || (totals && int(gs.SubscriptionsTotal) != t.Total) {
+		rep.Div(pfx+"stats:global", fmt.Sprintf("GetStats = {total %d, current %d}, specification says {total %d, current %d}",
 			gs.SubscriptionsTotal, gs.SubscriptionsCurrent, t.Total, len(t.Subs)), js, nil)
 	}
 	for _, ct := range t.Ctotal {
@@ -296,8 +352,8 @@ func verify(st subscription.Store, t *Trans, js []byte) {
 		if err != nil {
 			cs = subscription.Stats{}
 		}
-		if int(cs.SubscriptionsCurrent) != cur || int(cs.SubscriptionsTotal) != ct.V {
-			rep.Div("stats:client", fmt.Sprintf("GetClientStats(%s) = {total %d, current %d}, specification says {total %d, current %d}",
+		if int(cs.SubscriptionsCurrent) != cur || (totals && int(cs.SubscriptionsTotal) != ct.V) {
+			rep.Div(pfx+"stats:client", fmt.Sprintf("GetClientStats(%s) = {total %d, current %d}, specification says {total %d, current %d}",
 				ct.C, cs.SubscriptionsTotal, cs.SubscriptionsCurrent, ct.V, cur), js, nil)
 		}
 	}
@@ -306,13 +362,14 @@ func verify(st subscription.Store, t *Trans, js []byte) {
 func main() {
 	metaPath := flag.String("meta", "", "pack description (clients, filters, topics)")
 	workers := flag.Int("workers", 0, "")
-	target := flag.String("target", "mem", "mem")
+	tgt := flag.String("target", "mem", "mem | redis (redis-backed store over the in-process RESP server, with restart)")
 	raw := flag.Bool("raw", false, "stdin lines are plain JSON (replay) instead of TLA+ string literals")
 	flag.Parse()
-	if *target != "mem" {
-		fmt.Fprintln(os.Stderr, "unknown target", *target)
+	if *tgt != "mem" && *tgt != "redis" {
+		fmt.Fprintln(os.Stderr, "unknown target", *tgt)
 		os.Exit(2)
 	}
+	target = *tgt
 	b, err := os.ReadFile(*metaPath)
 	if err != nil {
 		fmt.Fprintln(os.Stderr, err)
